@@ -26,6 +26,15 @@ architecture changed accordingly (unchanged only when the bound would be reached
 
 Probes (`probe_policy`) check the call sites of the defects analysed in the design / build round
 one by one and report them through `chk.finding`; the suites do not report those again.
+
+Source translation (`pre_gate`, before the Lean gate): `py2lean_arch.py` translates the source text of the
+`@mutation` methods of EvolvableMLP, EvolvableCNN (+ MutableKernelSizes), EvolvableLSTM, EvolvableSimBa,
+EvolvableResNet and EvolvableNetwork (latent width) of the tree under test into `lean/Gen/ArchGen.lean`;
+`Proofs/ArchGenEq.lean` proves the generated methods equal to the model (`MLP.step`, `CNN.step`, … with the
+draw ranges of `Basic.drawsOK`) and `Props/C03.lean` restates the bounds / fallback / returned-dict theorems
+over the generated definitions (`C03_source_translation_*`).  If the translator rejects the source or those
+proofs stop checking, that is a gate problem naming the broken declaration; the suites below then supply
+the failing input if there is one (else the VIOLATION line ends with no-failing-input-found).
 """
 from __future__ import annotations
 
@@ -38,6 +47,8 @@ import warnings
 import numpy as np
 import torch
 
+import common
+import py2lean_arch
 from common import REPO, ROOT, Check, InfraError, ddmin
 
 warnings.filterwarnings("ignore")
@@ -1366,6 +1377,15 @@ def safely(chk: Check, suite: str, spec: dict, policy: dict, fn, *args, default=
                       {"suite": suite, "spec": spec, "steps": [], "policy": policy, "oracle_problems": [msg],
                        "traceback": traceback.format_exc()[-1500:]})
         return default
+
+
+def pre_gate(chk: Check) -> None:
+    """Regenerate lean/Gen/ArchGen.lean from the source text of the tree under test (before the Lean gate)
+    and re-check `generated = model` (Proofs/ArchGenEq.lean) and the theorems over the generated definitions
+    (Props/C03.lean).  A failure is a gate problem; the suites then look for the failing input."""
+    common.translation_gate(chk, py2lean_arch, "Gen/ArchGen.lean",
+                            ["Gen.ArchGen", "Proofs.ArchGenEq", "Props.C03"],
+                            "@mutation methods of EvolvableMLP / CNN / LSTM / SimBa / ResNet / EvolvableNetwork")
 
 
 def run(chk: Check) -> None:
